@@ -9,6 +9,11 @@ Four exhaustive families (PRODX), all on the real implementation:
              __traceback__ that belong to generated code are exactly one per task level in call order, the last one
              being the raising frame at the raise statement (for catch-and-raise-other: levels 0..catching level,
              ending at the `raise OtherError` statement).
+             Every chain's outcome is delivered SIX times through generated caller functions: first read of the root
+             task via RD_A (task.value()), the failed task read again via RD_A, via another caller RD_B, via task()
+             (RD_CALL), via RD_A once more, and the root function called again synchronously (RD_F).  Each delivery
+             must show exactly [that caller] + one frame per level: nothing left over from earlier deliveries, and
+             re-reads raise the same exception object.
  stack   (b) format_asynq_stack() recorded at every statement position of every level of such chains (other levels
              plain), and before/after every await of every node of a 7-node binary tree under every combination of
              blocking / list-vs-tuple yield.  Oracle: one entry per task level, outermost first, entry i naming the
@@ -36,7 +41,9 @@ ID = "C18"
 ENGINE = "PRODX"
 BUILDS = ("pure", "compiled")
 RULE = ("(a) every chain of generated @asynq tasks of depth <= 6 (quick) / 10 (thorough): blocking subset x raise level x "
-        "statement position x handler kind and level; (b) format_asynq_stack at every position of every level of such "
+        "statement position x handler kind and level, each outcome delivered 6 times (first read, failed task read again "
+        "from the same caller / another caller / via task() / once more, root function called again) with the same frame "
+        "oracle per delivery (no frames accumulated from earlier deliveries); (b) format_asynq_stack at every position of every level of such "
         "chains and in every node of a 7-node tree under all 1024 blocking/yield-shape configurations, and in hand-off "
         "chains where each link is created-and-awaited / created here but awaited by a helper task (creator suspended) / "
         "created by a maker task that has finished / returned un-awaited by a creator that has finished: every link "
@@ -332,10 +339,10 @@ def judge_chain(names):
             c = k
         elif inf["role"][0] == "q":
             probe = k
-    val, exc, frames, stacks = cm.run_chain(names)
     feats = ["depth:%d" % d, "blocking:%d" % sum(1 for i in infos if i["blk"] == "b")]
     out = []
     if probe is not None:
+        val, exc, frames, stacks = cm.run_chain(names)
         feats = ["family:stack", "level:%d" % probe] + feats
         if exc is not None:
             return [("harness", "probe chain %s raised %r" % (names, exc), feats)]
@@ -356,8 +363,6 @@ def judge_chain(names):
                          % (probe, names, i, names[i], st), feats)]
         return out
     feats = ["family:traceback", "raise-level:%d" % r, "handler:%s" % (infos[c]["role"] if c is not None else "none")] + feats
-    if exc is None:
-        return [("harness", "chain %s returned %r instead of raising" % (names, val), feats)]
     if c is not None and infos[c]["role"] == "co":
         exp_names = names[:c + 1]
         exp_line = infos[c]["other_line"]
@@ -366,21 +371,38 @@ def judge_chain(names):
         exp_names = names[:r + 1]
         exp_line = infos[r]["raise_line"]
         exp_type = diag.ChainError
-    if type(exc) is not exp_type:
-        return [("harness", "chain %s raised %r, expected %s" % (names, exc, exp_type.__name__), feats)]
-    got = [f[0] for f in frames]
-    if got != exp_names:
-        if len(got) < len(exp_names) or any(n not in got for n in exp_names):
-            why = "missing-level"
-        elif len(got) > len(exp_names):
-            why = "extra-frame"
-        else:
-            why = "order"
-        return [("traceback-frames", "chain %s: generated-code frames of the escaping traceback are %r, expected one per "
-                 "level: %r" % (names, frames, exp_names), feats + ["why:" + why])]
-    if frames[-1][1] != exp_line:
-        return [("traceback-raise-line", "chain %s: innermost frame is at line %d, the raise statement is at line %d"
-                 % (names, frames[-1][1], exp_line), feats)]
+    first_exc = None
+    for di, (rd, val, exc, frames) in enumerate(cm.run_deliveries(names)):
+        fresh = rd == "RD_F"
+        what = ("delivery %d (%s)" % (di + 1, "the root function called again" if fresh else
+                                       "first read of the root task" if di == 0 else "the failed root task read again")
+                + " through %s" % rd)
+        dfeats = feats + ["delivery:%s" % ("first" if di == 0 else "fresh-call" if fresh else "repeat"), "reader:" + rd]
+        if exc is None:
+            return [("harness", "chain %s, %s returned %r instead of raising" % (names, what, val), dfeats)]
+        if type(exc) is not exp_type:
+            return [("harness", "chain %s, %s raised %r, expected %s" % (names, what, exc, exp_type.__name__), dfeats)]
+        if di == 0:
+            first_exc = exc
+        elif not fresh and exc is not first_exc:
+            return [("traceback-frames", "chain %s, %s raised another exception object %r than the first delivery"
+                     % (names, what, exc), dfeats + ["why:other-object"])]
+        got = [f[0] for f in frames]
+        want = [rd] + exp_names
+        if got != want:
+            if any(n not in got for n in want):
+                why = "missing-level"
+            elif any(g in diag.ChainModule.READERS for g in got[1:]) or got.count(rd) > 1:
+                why = "frames-of-earlier-delivery"
+            elif len(got) > len(want):
+                why = "extra-frame"
+            else:
+                why = "order"
+            return [("traceback-frames", "chain %s, %s: generated-code frames of the traceback are %r, expected the caller "
+                     "and one per level: %r" % (names, what, frames, want), dfeats + ["why:" + why])]
+        if frames[-1][1] != exp_line:
+            return [("traceback-raise-line", "chain %s, %s: innermost frame is at line %d, the raise statement is at line %d"
+                     % (names, what, frames[-1][1], exp_line), dfeats)]
     return out
 
 
@@ -713,12 +735,14 @@ def run(job, env):
                     hb[2] = n
                 for v in judge_chain(names):
                     _add(res, v, {"fam": "chain", "names": names})
-                res["transitions"] += d
+                res["transitions"] += d * (6 if fam == "tb" else 1)
                 if d >= 2:
                     res["nontrivial"] += 1
         res["evals"] += n
         res["states"] += n
         diag.bump(res, "chains:" + fam, n)
+        if fam == "tb":
+            diag.bump(res, "deliveries:tb", 6 * n)
         diag.bump(res, "chains:%s:depth%d" % (fam, d), n)
         if not res["samples"] and fam == "tb" and d >= 3:
             res["samples"].append({"family": fam, "chain": names})
